@@ -16,7 +16,7 @@ from __future__ import annotations
 from datetime import date, timedelta, tzinfo
 from typing import TYPE_CHECKING, Generator, Optional, Union
 
-from icalendar.cal import Alarm, Event, Todo
+from icalendar.cal import Alarm, Event, IncompleteComponent, Todo
 from icalendar.timezone import tzp
 from icalendar.tools import is_date, normalize_pytz, to_datetime
 
@@ -215,8 +215,15 @@ class Alarms:
         """
         if isinstance(component, (Event, Todo)):
             self.set_parent(component)
-            self.set_start(component.start)
-            self.set_end(component.end)
+            try:
+                self.set_start(component.start)
+            except IncompleteComponent:
+                # only needed, and then reported, for alarms relative to it
+                self.set_start(None)
+            try:
+                self.set_end(component.end)
+            except IncompleteComponent:
+                self.set_end(None)
             if component.is_thunderbird():
                 self.acknowledge_until(component.X_MOZ_LASTACK)
                 self.snooze_until(component.X_MOZ_SNOOZE_TIME)
